@@ -15,8 +15,8 @@ from glotaran.project.result import Result
 class ProjectResultRegistry(ProjectRegistry):
     """A registry for results."""
 
-    result_pattern = re.compile(r".+_run_\d{4}$")
-    run_specifier_pattern = re.compile(r"_run_\d{4}$")
+    result_pattern = re.compile(r".+_run_\d{4,}$")
+    run_specifier_pattern = re.compile(r"_run_\d{4,}$")
 
     def __init__(self, directory: Path):
         """Initialize a result registry.
@@ -59,14 +59,15 @@ class ProjectResultRegistry(ProjectRegistry):
         Returns
         -------
         list[Path]
-            Paths to previous results with name ``base_name``.
+            Paths to previous results with name ``base_name``, ordered by run number.
         """
-        run_name_pattern = re.compile(rf"{re.escape(base_name)}_run_\d{{4}}")
-        return sorted(
-            path
-            for path in self.directory.iterdir()
-            if run_name_pattern.fullmatch(path.name) is not None
-        )
+        run_name_pattern = re.compile(rf"{re.escape(base_name)}_run_(\d{{4,}})")
+        runs = []
+        for path in self.directory.iterdir():
+            match = run_name_pattern.fullmatch(path.name)
+            if match is not None:
+                runs.append((int(match.group(1)), path))
+        return [path for _, path in sorted(runs)]
 
     def _latest_result_path_fallback(self, name: str, *, latest: bool = False) -> Path:
         """Fallback when a user forgets to specify the run to get a result.
